@@ -63,7 +63,7 @@ var (
 	dispositions = []string{"", "", "", "inline", "attachment", "attachment; filename=\"x.html\"", "Attachment; filename=x.html", "ATTACHMENT", "inline; filename=attachment.html",
 		"attachment; filename=monthly report.html", "attachment; filename", "attachment; filename=", "attachment;", "attachment ; filename=\"a\"; filename=\"b\"",
 		"attachment; filename=r\u00e9sum\u00e9.html", "attachment; filename*=UTF-8''x.html", " attachment", "attachment; filename=a/b.html", "attachment;filename=\"unterminated"}
-	accepts      = []string{"text/html", "text/html,application/xhtml+xml,application/xml;q=0.9,*/*;q=0.8", "*/*", "", "application/json", "TEXT/HTML", "text/plain, text/html;q=0.5", "image/webp"}
+	accepts = []string{"text/html", "text/html,application/xhtml+xml,application/xml;q=0.9,*/*;q=0.8", "*/*", "", "application/json", "TEXT/HTML", "text/plain, text/html;q=0.5", "image/webp"}
 )
 
 const bannerHTML = `<b id="verif-banner">BANNER</b>`
